@@ -3,28 +3,38 @@ C18 — model of openapi3gen (schema generation from Go types), of encoding/json
 supported kinds, and of the fragment of schema validation that generated schemas use.
 
 What is modelled, branch by branch (openapi3gen/openapi3gen.go, field_info.go, type_info.go):
+  * the option set `generatorOpt` (`Opts`): UseAllExportedFields, ThrowErrorOnCycle, SchemaCustomizer (through the three
+    ways it can return: nil, ExcludeSchemaSentinel, another error; with one installed the type table is never
+    consulted), CreateComponentSchemas {ExportComponentSchemas, ExportTopLevelSchema, ExportGenerics},
+    CreateTypeNameGenerator (prefix + exception table);
   * `generateSchemaRefFor`: the per-generator type table `g.Types` keyed by the reflect.Type INCLUDING
-    pointer-ness (a hit returns the stored schema unchanged), then `generateWithoutSaving`;
+    pointer-ness (a hit returns the stored schema unchanged), the `(nil, nil)` of an excluded schema, error
+    propagation, then `generateWithoutSaving`;
   * `generateWithoutSaving`: cycle test against the parent chain (pointer-stripped types), pointer
-    stripping with `nullable = !isRoot`, the kind switch with the integer bounds/format table, `[]byte`,
-    `time.Time`, slices (items), maps (additionalProperties), structs (field loop over the flattened,
-    name-sorted field list, "only fields with a JSON tag" unless `UseAllExportedFields`, later property of
-    the same name overwrites the earlier one, `type: object` only if there are properties);
-  * `appendFields`: `json:"-"`, embedded structs without tag are flattened (one pointer stripped),
-    unexported fields skipped, tag name / `omitempty` / `string` options;
-  * cycle cutting: `generateCycleSchemaRef` (pointer stripped, slice/map wrappers, `$ref` to the component
-    named after the type, registration in `componentSchemaRefs`);
-  * `NewSchemaRefForValue`: every registered component name is filled from ANY generated schema whose Go type
-    name equals it and that has properties (Go map iteration order decides which one: the candidates are an
-    explicit list here, theorems quantify over the choice).
-  * encoding/json: kinds, pointers (nil → null), `omitempty`, `,string`, embedded structs with the
-    dominant-field rule (least depth, then tagged, else dropped), nil embedded pointers.
-What is abstracted: base64 text of `[]byte` and RFC 3339 text of `time.Time` are carried as strings
+    stripping with `nullable = !isRoot`, the kind switch on the UNDERLYING type of defined types (table `modelKinds`,
+    compared with the table read off the source), `[]byte` and every slice whose element KIND is uint8,
+    `time.Time`, slices (items), maps (additionalProperties), arrays and the self-recursive container types,
+    structs (early `$ref` for an already exported component, field loop over the flattened, name-sorted field
+    list, "only fields with a JSON tag" unless `UseAllExportedFields`, `yaml` tag as property name, later property
+    of the same name overwrites the earlier one, `type: object` only if there are properties), the customizer
+    call, the export decision (generic names, top level) with the generated type name;
+  * `appendFields`: `json:"-"`, embedded structs without tag are flattened (one pointer stripped), embedded
+    non-struct types are NOT discovered (encoding/json emits them), "private" = lower-case first rune (encoding/json:
+    unexported), tag name / `omitempty` / `string` options;
+  * cycle cutting: `generateCycleSchemaRef` (pointer stripped, slice/map wrappers — recursing forever on
+    `type L []L` —, `$ref` to the component named by the type-name generator, registration in
+    `componentSchemaRefs`, the enclosing struct's schema as the reference's `Value`);
+  * `NewSchemaRefForValue`: every registered component name is filled from ANY entry of `g.SchemaRefs` whose
+    (trimmed) reference name equals it and whose Value has properties (Go map iteration order decides which one:
+    the candidates are an explicit list here, theorems quantify over the choice).
+  * encoding/json: kinds (of defined types too), pointers (nil → null), `omitempty`, `,string`, embedded structs with
+    the dominant-field rule (least depth, then tagged, else dropped), embedded defined types, nil embedded pointers.
+What is abstracted: base64 text of byte slices and RFC 3339 text of `time.Time` are carried as strings
 (`HasType` demands that they match the library's `byte` / `date-time` format expressions, which the
-differential run checks on the real encodings); floats are exact decimals; `reflect` and `encoding/json`
-themselves are trusted; generator options other than `UseAllExportedFields`, the `…Ref` struct special case,
-`SetSchemar`, `json.RawMessage`, arrays, interfaces, func/chan fields, yaml tags and named non-struct types
-are not modelled.
+differential run checks on the real encodings); floats are exact decimals; map keys are carried as their JSON text;
+`reflect` and `encoding/json` themselves are trusted; a SchemaCustomizer that edits the schema, the `…Ref` struct
+special case, `SetSchemar`, `json.RawMessage`, interfaces, func/chan fields and the second `generateSchemaRefFor`
+call for fields of embedded structs under UseAllExportedFields (idempotent) are not modelled.
 -/
 namespace KinModel.Gen3
 
